@@ -674,7 +674,7 @@ theorem number_real (first : Char) (ds : List Char) (fr : Option (List Char))
     simp only [fracTextOf, List.cons_append, List.reverse_nil, List.nil_append, h1, if_false,
       if_true]
     rw [real_fwd _ f e rest _ hfr he hd]
-    simp only [fracTextOf, List.cons_append, List.append_assoc] at hv
+    simp only [fracTextOf, List.cons_append] at hv
     simp [bind, Except.bind, realToken, hv, advs_append]
   | none =>
     cases e with
@@ -686,7 +686,7 @@ theorem number_real (first : Char) (ds : List Char) (fr : Option (List Char))
       simp only [fracTextOf, expTextOf, List.cons_append, List.reverse_nil, List.nil_append,
         List.append_assoc, if_true]
       rw [numberSuffix_fwd _ s d rest _ h1 h2 h3 (stopsAt_digit_of_delim hd)]
-      simp only [fracTextOf, expTextOf, List.cons_append, List.nil_append] at hv
+      simp only [fracTextOf, expTextOf, List.nil_append] at hv
       simp [endOfToken_eq, hd, bind, Except.bind, realToken, hv, advs_append]
 
 /-- `validReal` after the sign has been removed -/
@@ -836,9 +836,9 @@ theorem token_real (r : RealLit) (rest : List Char) (p : Pos) (h : r.wf = true)
       have hns : NumStart '+' (x :: ip) := Or.inr ⟨Or.inl rfl, x, ip, rfl, hx⟩
       simp only [List.cons_append, List.nil_append, List.append_assoc]
       have := number_real '+' (x :: ip) r.frac r.exp rest (adv '+' p) h3 h4 h5 h6 hd hv
-      simp only [List.cons_append, List.append_assoc] at this
+      simp only [List.cons_append] at this
       have ht := token_numStart hns (fracTextOf r.frac ++ (expTextOf r.exp ++ rest)) p
-      simp only [List.cons_append, List.append_assoc] at ht
+      simp only [List.cons_append] at ht
       rw [ht, this]
       rfl
     · have hv : validReal ('-' :: (x :: ip ++ (fracTextOf r.frac ++ expTextOf r.exp))) = true := by
@@ -846,9 +846,9 @@ theorem token_real (r : RealLit) (rest : List Char) (p : Pos) (h : r.wf = true)
       have hns : NumStart '-' (x :: ip) := Or.inr ⟨Or.inr rfl, x, ip, rfl, hx⟩
       simp only [List.cons_append, List.nil_append, List.append_assoc]
       have := number_real '-' (x :: ip) r.frac r.exp rest (adv '-' p) h3 h4 h5 h6 hd hv
-      simp only [List.cons_append, List.append_assoc] at this
+      simp only [List.cons_append] at this
       have ht := token_numStart hns (fracTextOf r.frac ++ (expTextOf r.exp ++ rest)) p
-      simp only [List.cons_append, List.append_assoc] at ht
+      simp only [List.cons_append] at ht
       rw [ht, this]
       rfl
 
@@ -1187,5 +1187,32 @@ instance decValidGaps : (ts : List Token) → (l : List (List Char)) → Decidab
     have := decValidGaps ts l
     inferInstanceAs (Decidable (isAtmos false a = true ∧ gapOK t (l.headD []) ts.head? = true ∧
       ValidGaps ts l))
+
+/-- `#\<name>` and `#\x<hex>`: a character followed by a run of ASCII letters and digits -/
+theorem token_char_run (first : Char) (run rest : List Char) (p : Pos) (c : Char)
+    (hrun : ∀ x ∈ run, isAsciiAlnum x = true) (hne : run ≠ [])
+    (hc : charName? (first :: run) = some c ∨
+      (charName? (first :: run) = none ∧ first = 'x' ∧ hexScalar? run = some c ∧
+        run.head? ≠ some '+'))
+    (h : startsDelim rest = true ∨ startsSharp rest = true) :
+    token ('#' :: '\\' :: first :: (run ++ rest)) p
+      = .ok (some (.prim (.chr c), rest, advs ('#' :: '\\' :: first :: run) p)) := by
+  have hemp : run.isEmpty = false := by cases run <;> simp_all
+  have : character first (run ++ rest) (adv first (adv '\\' (adv '#' p)))
+      = .ok (.prim (.chr c), rest, advs run (adv first (adv '\\' (adv '#' p)))) := by
+    unfold character
+    rw [takeRun_append isAsciiAlnum run rest _ [] hrun (stopsAt_alnum_of h)]
+    simp only [List.reverse_nil, List.nil_append, endOfSharpToken_of h, bind, Except.bind, hemp]
+    rcases hc with hc | ⟨h1, h2, h3, h4⟩
+    · simp [hc, pure, Except.pure]
+    · subst h2; simp [h1, h3, h4, pure, Except.pure]
+  simp [token, this, Except.map]
+
+theorem charNames_ok : ∀ nc ∈ charNames, ∃ first run, nc.1 = first :: run ∧ run ≠ [] ∧
+    (∀ x ∈ run, isAsciiAlnum x = true) ∧ charName? (first :: run) = some nc.2 := by
+  intro nc h
+  simp only [charNames, List.mem_cons, List.not_mem_nil, or_false] at h
+  rcases h with rfl | rfl | rfl | rfl | rfl | rfl | rfl | rfl | rfl <;>
+    exact ⟨_, _, rfl, by simp, by decide, by decide⟩
 
 end Ruschm.Text
